@@ -86,7 +86,7 @@ def tlc_trace(trace, table, out, spec="TraceContract", timeout=1200, extra_env=N
     env = {"TRACE": trace, "TABLE": table, "OUT": out}
     if extra_env:
         env.update(extra_env)
-    cmd = ["java", "-XX:+UseParallelGC", "-Xss16m", "-Xmx3g", "-cp", TLC_JAR, "tlc2.TLC", "-workers", "1",
+    cmd = ["java", "-XX:+UseSerialGC", "-XX:CICompilerCount=2", "-Xss16m", "-Xmx3g", "-cp", TLC_JAR, "tlc2.TLC", "-workers", "1",
            "-noGenerateSpecTE", "-metadir", md, "-config", spec + ".cfg", spec + ".tla"]
     rc, txt = run(cmd, timeout, cwd=SPEC, env=env)
     shutil.rmtree(md, ignore_errors=True)
@@ -143,40 +143,49 @@ class FamilyRun:
             fcntl.flock(lock, fcntl.LOCK_UN)
             lock.close()
 
-    # ---- pipeline: one job per suite (compile, run shards, validate parts)
+    # ---- pipeline: stage 1 compile + run every suite, stage 2 validate every trace part (both 16-way parallel)
     def execute(self):
         import families
         suites = families.FAMILIES[self.family](self.tier, self.seed)
         log("[%s] %d suites, tier %s, seed %d" % (self.family, len(suites), self.tier, self.seed))
-        results = []
-        with cf.ThreadPoolExecutor(max_workers=JOBS) as ex:
-            futs = [ex.submit(self.do_suite, s) for s in suites]
-            for f in futs:
-                results.append(f.result())
         agg = {"family": self.family, "tier": self.tier, "seed": self.seed, "suites": len(suites), "verdicts": [],
                "cnt": {}, "cases": 0, "events": 0, "states": 0, "distinct": 0, "parts": 0, "grammars": 0,
-               "samples": [], "opaque_rules": []}
-        for r in results:
-            agg["verdicts"].extend(r["verdicts"])
-            for k, v in r["cnt"].items():
-                agg["cnt"][k] = agg["cnt"].get(k, 0) + v
-            for k in ("events", "states", "distinct", "parts", "grammars"):
-                agg[k] += r[k]
-            agg["cases"] += r["cnt"].get("cases", 0)
-            if r["samples"] and len(agg["samples"]) < 3:
-                agg["samples"].append(r["samples"][0])
-            agg["opaque_rules"].extend(r["opaque_rules"])
+               "samples": [], "opaque_rules": [], "t_compile": 0.0, "t_run": 0.0, "t_tlc": 0.0}
+        with cf.ThreadPoolExecutor(max_workers=JOBS) as ex:
+            built = [f.result() for f in [ex.submit(self.do_build, s) for s in suites]]
+            jobs = []
+            for b in built:
+                agg["grammars"] += b["grammars"]
+                agg["opaque_rules"].extend(b["unknown"])
+                agg["t_compile"] += b["t_compile"]
+                agg["t_run"] += b["t_run"]
+                for part in b["parts"]:
+                    jobs.append(ex.submit(self.do_part, b, part))
+            for f in jobs:
+                r = f.result()
+                agg["verdicts"].extend(r["verdicts"])
+                for k, v in r["cnt"].items():
+                    agg["cnt"][k] = agg["cnt"].get(k, 0) + v
+                for k in ("events", "states", "distinct", "parts", "t_tlc"):
+                    agg[k] += r[k]
+                if r["sample"] and len(agg["samples"]) < 3:
+                    agg["samples"].append(r["sample"])
+        agg["cases"] = agg["cnt"].get("cases", 0)
         agg["opaque_rules"] = sorted(set(agg["opaque_rules"]))[:50]
+        for k in ("t_compile", "t_run", "t_tlc"):
+            agg[k] = round(agg[k], 1)
         return agg
 
-    def do_suite(self, suite):
+    def do_build(self, suite):
         name = suite["name"]
         d = os.path.join(self.dir, name)
         os.makedirs(d)
         src = os.path.join(d, name + ".cpp")
         exe = os.path.join(d, name)
         open(src, "w").write(suite["source"])
+        t_a = time.time()
         compile_suite(src, exe, suite.get("flags", ()))
+        t_b = time.time()
         prefix = os.path.join(d, "tr")
         tb = os.path.join(d, "table.ndjson")
         rc, out = run([exe, prefix, tb] + [str(x) for x in suite.get("args", [])], 1500)
@@ -187,48 +196,49 @@ class FamilyRun:
         tbl, unknown = tablemod.build(rows)
         tj = os.path.join(d, "table.json")
         json.dump(tbl, open(tj, "w"))
-        names = {n["id"]: n["name"] for n in tbl["nodes"]}
-        res = {"verdicts": [], "cnt": {}, "events": 0, "states": 0, "distinct": 0, "parts": 0,
-               "grammars": suite.get("ngrammars", 0), "samples": [], "opaque_rules": unknown}
-        parts = sorted(glob.glob(prefix + ".*.ndjson"))
-        for part in parts:
+        parts = []
+        for part in sorted(glob.glob(prefix + ".*.ndjson")):
             if os.path.getsize(part) == 0:
                 os.remove(part)
-                continue
-            outp = part + ".verdicts.json"
-            r, gen, dist = tlc_trace(part, tj, outp, spec=suite.get("spec", "TraceContract"))
-            res["parts"] += 1
-            res["states"] += gen
-            res["distinct"] += dist
-            res["events"] += r["lines"]
-            for k, v in r["cnt"].items():
-                res["cnt"][k] = res["cnt"].get(k, 0) + v
-            if not res["samples"]:
-                with open(part) as f:
-                    head = [json.loads(next(f)) for _ in range(6)]
-                res["samples"].append({"suite": name, "first_events": head})
-            seen_cases = set()
-            for v in r["verdicts"]:
-                v["suite"] = name
-                v["part"] = os.path.basename(part)
-                v["rule"] = names.get(v.get("r"), "")
-                v["primary"] = v["case"] not in seen_cases
-                seen_cases.add(v["case"])
-                if v["primary"]:
-                    # keep what is needed to replay the case: its events and the table
-                    rp = os.path.join(self.dir, "replay-%s-%s-%d.json" % (name, os.path.basename(part), v["case"]))
-                    if not os.path.exists(rp):
-                        json.dump({"suite": name, "case": v["case"], "table": tbl,
-                                   "events": [json.loads(l) for l in case_slice(part, v["case"])]}, open(rp, "w"))
-                    v["replay"] = rp
-                res["verdicts"].append(v)
-            os.remove(part)
-            if os.path.exists(outp):
-                os.remove(outp)
-        # binaries are not needed once the traces are validated
+            else:
+                parts.append(part)
         for f in (exe, tb):
             if os.path.exists(f):
                 os.remove(f)
+        return {"name": name, "table": tj, "tbl": tbl, "names": {n["id"]: n["name"] for n in tbl["nodes"]},
+                "parts": parts, "unknown": unknown, "grammars": suite.get("ngrammars", 0),
+                "spec": suite.get("spec", "TraceContract"), "t_compile": t_b - t_a, "t_run": time.time() - t_b}
+
+    def do_part(self, b, part):
+        t0 = time.time()
+        name = b["name"]
+        outp = part + ".verdicts.json"
+        r, gen, dist = tlc_trace(part, b["table"], outp, spec=b["spec"])
+        res = {"verdicts": [], "cnt": r["cnt"], "events": r["lines"], "states": gen, "distinct": dist, "parts": 1,
+               "sample": None}
+        if part.endswith(".0000.ndjson"):
+            with open(part) as f:
+                head = [json.loads(x) for _, x in zip(range(6), f)]
+            res["sample"] = {"suite": name, "first_events": head}
+        seen_cases = set()
+        for v in r["verdicts"]:
+            v["suite"] = name
+            v["part"] = os.path.basename(part)
+            v["rule"] = b["names"].get(v.get("r"), "")
+            v["primary"] = v["case"] not in seen_cases
+            seen_cases.add(v["case"])
+            if v["primary"]:
+                # keep what is needed to replay the case: its events and the table
+                rp = os.path.join(self.dir, "replay-%s-%s-%d.json" % (name, os.path.basename(part), v["case"]))
+                if not os.path.exists(rp):
+                    json.dump({"suite": name, "case": v["case"], "table": b["tbl"],
+                               "events": [json.loads(l) for l in case_slice(part, v["case"])]}, open(rp, "w"))
+                v["replay"] = rp
+            res["verdicts"].append(v)
+        os.remove(part)
+        if os.path.exists(outp):
+            os.remove(outp)
+        res["t_tlc"] = time.time() - t0
         return res
 
 
